@@ -6,7 +6,7 @@ from .. import run as R
 
 
 def run_campaign(chk, b, profiles, ncases, facets, sig_prefix, nontrivial_fn, rule, want_table=False,
-                 names_modes=("full", "full", "hash", "none"), permute=0.0, nsel=3, sigfn=None, cut_refs=0.0):
+                 names_modes=("full", "full", "hash", "none"), permute=0.0, nsel=3, sigfn=None, cut_refs=0.0, tail_sweep=0):
     sz = b.sizer()
     shim = b.shimdir()
     scratch = b.scratchdir()
@@ -17,7 +17,7 @@ def run_campaign(chk, b, profiles, ncases, facets, sig_prefix, nontrivial_fn, ru
             prof = "scale"
         specs.append(dict(seed=R.SEED, idx=i, profile=prof, sizer=sz, scratch=scratch, shimdir=shim,
                           want_table=want_table, names_modes=list(names_modes), permute=permute, nsel=nsel,
-                          cut_refs=cut_refs))
+                          cut_refs=cut_refs, tail_sweep=tail_sweep))
     results = R.pmap(C.run_case, specs, chunksize=4, chk=chk)
     stats = collections.Counter()
     for r in results:
@@ -42,6 +42,7 @@ def run_campaign(chk, b, profiles, ncases, facets, sig_prefix, nontrivial_fn, ru
         stats["repositories_in_promisor_layout"] += 1 if r.get("promisor_layout") else 0
         stats["runs_with_a_stalled_or_slow_stderr_reader"] += r.get("slow_stderr_runs", 0)
         stats["runs_with_children_delivering_in_one_burst"] += r.get("burst_runs", 0)
+        stats["runs_with_the_batch_stream_cut_inside_its_last_record"] += r.get("tail_cut_runs", 0)
         stats["runs_with_stalling_children"] += r.get("stalled_runs", 0)
         stats["runs_with_for_each_ref_output_cut_mid_line"] += r.get("cut_ref_runs", 0)
         for s in r["samples"]:
@@ -189,3 +190,89 @@ def generic_fault_sweep(chk, b, prefix, argvs, seed_tag=None, refgroups=True, en
     chk.cov["generic_fault_sweep"] = {"argvs": argvs, "faults_delivered": total}
     shutil.rmtree(d, ignore_errors=True)
     return total
+
+
+def _vanish_job(arg):
+    import os
+    import shutil
+    from .. import parse_out as P
+    sz, shimdir, src, oid, sig, scratch, jid = arg
+    d = os.path.join(scratch, "vanish-%d" % jid)
+    shutil.copytree(src, os.path.join(d, "repo"))
+    gitdir = os.path.join(d, "repo")
+    path = os.path.join(gitdir, "objects", oid[:2], oid[2:])
+    plan = R.make_plan(os.path.join(d, "plan"), [{"sig": sig, "ord": 0, "mode": "delay", "pre_ms": 500, "unlink": [path], "max_ms": 600}],
+                       record=True)
+    r = R.sizer(sz, gitdir, ["--json", "--no-progress"], shimdir=shimdir, plan=plan, tmpdir=d, timeout=60)
+    evs = R.read_events(os.path.join(d, "plan"))
+    gone = not os.path.exists(path) and any("unlinked" in (e.get("delivered") or "") for e in evs)
+    shutil.rmtree(d, ignore_errors=True)
+    js = None
+    if r.rc == 0:
+        js, _ = P.parse_json(r.out)
+    return {"oid": oid, "sig": sig, "rc": r.rc, "timed_out": r.timed_out, "js": js, "gone": gone, "stderr": r.err[-300:].decode("utf-8", "replace")}
+
+
+def vanishing_object_stage(chk, b, prefix, keys, tier, must_fail=False):
+    """Somebody prunes the repository while it is scanned: an object that `git rev-list` still listed is gone when
+    `git cat-file --batch-check` (or, in the second pass, `git cat-file --batch`) gets to it. The run may fail; a run that
+    reports success must still report the values of the complete repository for `keys`."""
+    import os
+    import random
+    import shutil
+    from .. import gen as G
+    from .. import oracle as O
+    rng = random.Random("vanish|%s|%d" % (prefix, R.SEED))
+    scratch = os.path.join(b.scratchdir(), "vanish-" + prefix)
+    shutil.rmtree(scratch, ignore_errors=True)
+    os.makedirs(scratch)
+    pool = G.Pool(rng)
+    m = G.Model()
+    prev = None
+    chain = []
+    for i in range(6):
+        prev = G.Commit(pool.new_tree(max_depth=2, max_entries=4, allow_empty=False), [prev] if prev else [], cts=1400000000 + i, msg=b"c%d\n" % i)
+        chain.append(prev)
+    side = G.Commit(pool.new_tree(max_depth=1, allow_empty=False), [chain[1]], cts=1400000100, msg=b"side\n")
+    t = chain[2]
+    tags = []
+    for i in range(4):
+        t = G.Tag(t, name=b"nest%d" % i)
+        tags.append(t)
+    m.refs = {"refs/heads/main": chain[-1], "refs/heads/side": side, "refs/tags/nested": tags[-1], "refs/tags/inner": tags[1]}
+    src = G.write_model(m, os.path.join(scratch, "src"))
+    ex = O.compute(list(m.refs.values()))
+    want = {k: ex.sat(k) for k in keys}
+    victims = [chain[-1], chain[-2], chain[0], side, tags[-1], tags[-2], tags[0], chain[-1].tree, chain[3].tree]
+    blobs = [o for o in ex.reach.values() if o.kind == "blob"]
+    victims += blobs[:2]
+    jobs = []
+    for v in victims:
+        for sig in ("cat-file --batch-check", "cat-file --batch"):
+            if sig == "cat-file --batch" and v.kind == "blob":
+                continue
+            jobs.append((b.sizer(), b.shimdir(), src, v.oid, sig, scratch, len(jobs)))
+    res = R.pmap(_vanish_job, jobs, chk=chk)
+    delivered = 0
+    kinds = {v.oid: v.kind for v in victims}
+    for r in res:
+        chk.count()
+        if not r["gone"]:
+            continue
+        delivered += 1
+        chk.nontrivial(("vanish", r["oid"], r["sig"]))
+        if r["timed_out"]:
+            chk.inconc("watchdog in a vanishing-object run")
+        elif r["rc"] == 0 and must_fail:
+            chk.violation("%s/object-vanished-during-the-scan/exit-0-although-a-required-object-is-missing/%s/%s" % (
+                prefix, kinds[r["oid"]], r["sig"].split(" ")[-1]), {"object": r["oid"], "kind": kinds[r["oid"]], "gone_before": r["sig"]})
+        elif r["rc"] == 0:
+            js = r["js"] or {}
+            bad = {k: [want[k], js.get(k)] for k in keys if js.get(k) != want[k]}
+            if bad:
+                chk.violation("%s/object-vanished-during-the-scan/exit-0-with-other-values/%s/%s" % (prefix, kinds[r["oid"]], r["sig"].split(" ")[-1]),
+                              {"object": r["oid"], "kind": kinds[r["oid"]], "gone_before": r["sig"], "want_got": bad})
+    chk.cov["vanishing_object_runs_delivered"] = delivered
+    if not delivered:
+        chk.inconc("no vanishing-object run was delivered")
+    shutil.rmtree(scratch, ignore_errors=True)
